@@ -275,7 +275,7 @@ func (n *Net) process(d *Dgram) {
 	d.Cause = n.cause
 	n.Sent++
 	n.fold('t', d)
-	if !n.Quiet {
+	if !n.Quiet || netLog {
 		r.Logf("tx #%d %s>%s %s len=%d", d.ID, d.Src, d.Dst, n.describe(d.Data), len(d.Data))
 	}
 	if n.OnSend != nil {
@@ -288,7 +288,7 @@ func (n *Net) process(d *Dgram) {
 	if n.Blocked != nil && n.Blocked(d.Src, d.Dst, now) {
 		n.Dropped++
 		r.CountFault("outage-drop", 1)
-		if !n.Quiet {
+		if !n.Quiet || netLog {
 			r.Logf("blocked #%d", d.ID)
 		}
 		return
@@ -308,7 +308,7 @@ func (n *Net) process(d *Dgram) {
 		n.burst[link] = b - 1
 		n.Dropped++
 		r.CountFault("burst-drop", 1)
-		if !n.Quiet {
+		if !n.Quiet || netLog {
 			r.Logf("drop(burst) #%d", d.ID)
 		}
 		return
@@ -318,7 +318,7 @@ func (n *Net) process(d *Dgram) {
 	}
 	if r.Fault("drop", link, c.PDrop) {
 		n.Dropped++
-		if !n.Quiet {
+		if !n.Quiet || netLog {
 			r.Logf("drop #%d", d.ID)
 		}
 		return
@@ -418,7 +418,7 @@ func (n *Net) deliver(d *Dgram) {
 	n.mu.Unlock()
 	if ep == nil {
 		n.Dropped++
-		if !n.Quiet {
+		if !n.Quiet || netLog {
 			n.r.Logf("noroute #%d >%s", d.ID, d.Dst)
 		}
 		return
@@ -436,7 +436,7 @@ func (n *Net) deliver(d *Dgram) {
 	case ep.inbox <- d:
 		n.Delivered++
 		n.fold('r', d)
-		if !n.Quiet {
+		if !n.Quiet || netLog {
 			n.r.Logf("rx #%d.%d %s>%s %s len=%d %s", d.ID, d.Copy, d.From, d.Dst, n.describe(d.Data), len(d.Data), d.Mut)
 		}
 	default:
@@ -625,6 +625,10 @@ func (ep *Endpoint) ReadMsgUDP(b, oob []byte) (int, int, int, *net.UDPAddr, erro
 		}
 	}
 }
+
+// netLog (VERIF_NETLOG=1) logs every datagram also in scenarios that keep the network quiet: a debugging aid
+// for replays (it changes the event hash, not the schedule); never used by a check.
+var netLog = os.Getenv("VERIF_NETLOG") == "1"
 
 // maxUDPPayload is the largest payload of a UDP datagram over IPv4.
 const maxUDPPayload = 65507
